@@ -628,7 +628,7 @@ theorem rdb_store_gen (kvs acc : List KV) (feat : KV) (subs : List Subnet) (hok 
 
 /-- well-formedness of a file for the v2 layout (decidable): map owners with labels shorter than 256
 bytes, at most one map per (type, owner, wildcard flag) — the hypothesis of C02's
-`findMapSorted_eq_findMapV1` — and W1–W3 on the subnets -/
+`findMapSorted_eq_findMapV1` — and W1 on the subnets -/
 def FileWFV2 (lines : List Bytes) (z : Zone) : Prop :=
   MapLinesV2OK lines ∧ Lpm.MapsUnique z.maps ∧ SubnetsRdbWF z.subnets
 
